@@ -313,6 +313,7 @@ inductive Msg where
   | esmCollector (app d : Nat) (x : Int)         -- the collector's net fees of a debt asset are burnt against the register (esm.go:267-315)
   | esmBurn (from_ app d : Nat) (x : Int)        -- MsgCollateralRedemption: a holder burns debt coins against the register (keeper.go:182-268)
   | esmReturn1 (vaultId owner : Nat) (cur infl : Int)  -- first-generation auction wound down under shutdown, less than the principal collected (dutch.go:538-570)
+  | esmReturn2 (vaultId owner : Nat) (cur curDebt fee : Int)  -- SECOND-generation auction that ran out under shutdown: auctionsV2 `TriggerEsm` (auctions.go:487-534)
   deriving Repr
 
 def create (s : State) (p : Product) (e : Env) (from_ app prod : Nat) (amtIn amtOut : Int) : Option State :=
@@ -616,13 +617,55 @@ def esmReturn1 (s : State) (p : Product) (e : Env) (vaultId owner : Nat) (cur in
     if l.product ≠ p.id ∨ ¬ e.esm = true ∨ cur < 0 ∨ cur > l.amountIn ∨ infl < 0 ∨ infl ≥ l.amountOut then none else
     (settle1 s p vaultId).bind fun s1 => creditVault s1 p owner cur (l.amountOut - infl)
 
+/-- the record side of `CreateNewVault` (vault.go:574-619) alone: the owner's open vault of the product is topped up, or a new
+vault is created (new id, counter + 1, appended to the product's list) — NO coin moves and no product total changes. -/
+def creditRecord (s : State) (p : Product) (owner : Nat) (cin cout : Int) : State :=
+  match s.vaults.find? (fun v => v.owner = owner ∧ v.product = p.id) with
+  | some v => { s with vaults := setVault s.vaults ({ v with amountIn := v.amountIn + cin, amountOut := v.amountOut + cout } : VaultRec) }
+  | none =>
+    let id := s.nextVault + 1
+    { s with vaults := s.vaults ++ [{ id := id, owner := owner, product := p.id, amountIn := cin, amountOut := cout,
+                                      interest := 0, closingFee := 0 }],
+             nextVault := id, length := s.length + 1,
+             vaultIds := updL s.vaultIds p.id (s.vaultIds p.id ++ [id]) }
+
+/-- what `TriggerEsm` burns: the debt collected so far beyond the liquidation penalty (`fee`), nothing if the bids have
+not even covered the penalty. `collected = TargetDebt − auction.DebtToken`, `TargetDebt = debt + fee`. -/
+def trigger2Burn (l : LockedRec) (curDebt fee : Int) : Int :=
+  if l.debt + fee - curDebt > fee then l.debt + fee - curDebt - fee else 0
+
+/-- **Second-generation auction that has run out under emergency shutdown** — auctionsV2 `AuctionIterator` → `TriggerEsm`
+(x/auctionsV2/keeper/auctions.go:487-534), modelled AS THE CODE IS (recorded finding, see notes/C01.md):
+* of the debt collected so far the part beyond the penalty is burnt (auction custody) and taken off the product's minted total,
+  the rest goes to the collector;
+* `CreateNewVault` gives the owner a vault with the UNSOLD collateral `cur` and the REMAINING TARGET debt `curDebt` (which still
+  contains the uncollected penalty, interest and closing fee) — but the unsold collateral is NOT sent to vault custody
+  (no bank call: it stays in the auction module account);
+* the product's collateral total falls by the collateral sold;
+* neither the auction nor the locked vault is deleted, so the same step runs again in the next block (it then fails only
+  if auction custody no longer holds the collected debt coins; with no bid at all it succeeds in EVERY block and the
+  owner's vault grows by `cur` / `curDebt` each time without a single coin arriving).
+`cur`, `curDebt` (the auction's current collateral / debt) and `fee` (the locked vault's penalty) are read by the harness
+from the chain before the step. Bidders' coins, auction custody and the collector are C10 / C13's subject (balances are
+adopted from the chain on these lines); the burn is modelled. -/
+def esmReturn2 (s : State) (p : Product) (e : Env) (vaultId owner : Nat) (cur curDebt fee : Int) : Option State :=
+  match s.locked.find? (·.vaultId = vaultId) with
+  | none => none
+  | some l =>
+    if l.product ≠ p.id ∨ ¬ e.esm = true ∨ cur < 0 ∨ cur > l.amountIn ∨ curDebt < 0 ∨ fee < 0 ∨ l.debt + fee - curDebt < 0 then none else
+    let s1 : State :=
+      { s with supply := upd1 s.supply p.denomOut (s.supply p.denomOut - trigger2Burn l curDebt fee),
+               minted := upd1 s.minted p.id (s.minted p.id - trigger2Burn l curDebt fee),
+               coll := upd1 s.coll p.id (s.coll p.id - (l.amountIn - cur)) }
+    some (creditRecord s1 p owner cur curDebt)
+
 /-- the product a message refers to (for `interestCalc` / `seize`: the product of the named vault) -/
 def Msg.product (s : State) : Msg → Option Nat
   | .create _ _ pr _ _ | .deposit _ _ pr _ _ | .withdraw _ _ pr _ _ | .draw _ _ pr _ _ | .repay _ _ pr _ _
   | .close _ _ pr _ | .depositAndDraw _ _ pr _ _ | .stableCreate _ _ pr _ | .stableDeposit _ _ pr _ _
   | .stableWithdraw _ _ pr _ _ => some pr
   | .interestCalc _ v | .seize v => (findVault s v).map (·.product)
-  | .settle v | .settle1 v | .esmReturn1 v _ _ _ => (s.locked.find? (·.vaultId = v)).map (·.product)
+  | .settle v | .settle1 v | .esmReturn1 v _ _ _ | .esmReturn2 v _ _ _ _ => (s.locked.find? (·.vaultId = v)).map (·.product)
   | .esmVault v => (findVault s v).map (·.product)
   | .esmStable v => (findStable s v).map (·.product)
   | .donate .. | .fund .. | .esmCollector .. | .esmBurn .. => none
@@ -647,6 +690,7 @@ def stepP (s : State) (p : Product) (e : Env) : Msg → Option State
   | .esmVault v => esmVault s p e v
   | .esmStable v => esmStable s p e v
   | .esmReturn1 v o c i => esmReturn1 s p e v o c i
+  | .esmReturn2 v o c d f => esmReturn2 s p e v o c d f
   | .esmCollector a d x => esmCollector s a d x
   | .esmBurn f a d x => esmBurn s f a d x
 
@@ -665,6 +709,56 @@ def step (cfg : Nat → Option Product) (s : State) (e : Env) (m : Msg) : Option
       match cfg pr with
       | none => none
       | some p => if p.id ≠ pr then none else stepP s p e m
+
+/-! ### what an accepted message does to the SUPPLY (C02: every mint is exactly the new principal, every burn exactly the
+principal retired, interest / fees / seizures never mint) — read off the message and the PRE-state; proved exact in
+`Lemmas/VaultSupply.lean` (`supply_delta_exact`), evaluated on the real supply by the driver -/
+
+/-- change of the supply of the product's DEBT denom -/
+def supplyDeltaP (s : State) (p : Product) (e : Env) : Msg → Int
+  | .create _ _ _ _ o => o
+  | .draw _ _ _ _ x => x
+  | .depositAndDraw _ _ _ v x => match findVault s v with
+    | some v0 => (userToken v0 x).getD 0
+    | none => 0
+  | .stableCreate _ _ _ x | .stableDeposit _ _ _ _ x => otherToken x p.decIn p.decOut
+  | .repay _ _ _ v x => match findVault s v, e.iota with
+    | some v0, some i => if x ≤ v0.interest + i then 0 else -(x - (v0.interest + i))
+    | _, _ => 0
+  | .close _ _ _ v => match findVault s v with
+    | some v0 => -v0.amountOut
+    | none => 0
+  | .stableWithdraw _ _ _ _ x => -(stableWithdrawAmounts p x).1
+  | .settle v => match s.locked.find? (·.vaultId = v) with
+    | some l => -l.debt
+    | none => 0
+  | .settle1 v => match s.locked.find? (·.vaultId = v) with
+    | some l => -l.amountOut
+    | none => 0
+  | .esmReturn1 _ _ _ infl => -infl
+  | .esmReturn2 v _ _ d f => match s.locked.find? (·.vaultId = v) with
+    | some l => -(trigger2Burn l d f)
+    | none => 0
+  | _ => 0
+
+/-- change of the supply of denom `d` by an accepted message `m` in state `s` -/
+def supplyDelta (cfg : Nat → Option Product) (s : State) (e : Env) (m : Msg) (d : Nat) : Int :=
+  match m with
+  | .fund _ d0 x => if d = d0 then x else 0
+  | .esmCollector _ d0 x | .esmBurn _ _ d0 x => if d = d0 then -x else 0
+  | .donate .. => 0
+  | _ =>
+    match m.product s with
+    | none => 0
+    | some pr =>
+      match cfg pr with
+      | none => 0
+      | some p => if d = p.denomOut then supplyDeltaP s p e m else 0
+
+/-- the messages that may mint: everything else never increases any supply (`C02.only_mints_mint`) -/
+def Msg.mints : Msg → Bool
+  | .create .. | .draw .. | .depositAndDraw .. | .stableCreate .. | .stableDeposit .. | .fund .. => true
+  | _ => false
 
 /-- a rejected message changes nothing -/
 def apply (cfg : Nat → Option Product) (s : State) (e : Env) (m : Msg) : State := (step cfg s e m).getD s
